@@ -2,6 +2,8 @@ import Pdpy11.Model.Classify
 import Pdpy11.Model.Eval
 import Pdpy11.Model.Rad50
 import Pdpy11.Model.Container
+import Pdpy11.Model.Lin
+import Pdpy11.Model.Link
 /-
 Whole-program model of `compiler.py` + `metacommands.py` + `metacommand_impl.py` for the
 grammar G: an elaboration pass that walks the statements in order (symbol tables, scoping
@@ -134,8 +136,8 @@ inductive Stop
   | crash (what : String)
 deriving Repr, DecidableEq
 
-abbrev Elab := StateT ES (Except Stop)
-instance {α : Type} : Inhabited (Elab α) := ⟨fun _ => .error .abort⟩
+abbrev Elab := ExceptT Stop (StateM ES)
+instance {α : Type} : Inhabited (Elab α) := ⟨throw .abort⟩
 
 def diag (sev id file : String) (s e : Nat) : Elab Unit :=
   modify (fun st => { st with diags := st.diags.push ⟨sev, id, file, s, e⟩ })
@@ -351,10 +353,9 @@ mutual
           if isInclude then unsupported "'.link' inside an included file"
           match ops with
           | [.expr e] =>
-            match st.link with
-            | some _ => do
-              diag "error" "address-conflict" file sp.s sp.e
-            | none => set { st with link := some (e, ctx, sp) }
+            let (l', conflict) := Link.setLink st.link (e, ctx, sp)
+            set { st with link := l' }
+            if conflict then diag "error" "address-conflict" file sp.s sp.e
           | _ => throw (.crash ".link operand")
           pushChunk ⟨.nothing, ctx, sp, nameSp⟩
           pure (fs, false)
@@ -440,14 +441,14 @@ mutual
               | none => throw .fatal
               | some body => do
                 -- an aborted include is swallowed by `Metacommand.fn` (RecoverableError → b"")
-                let st ← get
-                match (elabFile world cs path body true).run st with
-                | .ok (_, st') => set st'
-                | .error .abort =>
-                  -- what the file defined before the abort stays defined; the chunks it had
-                  -- produced are dropped from the image (the include returns b"")
-                  unsupported "statement aborting inside an included file"
-                | .error e => throw e
+                try
+                  elabFile world cs path body true
+                catch
+                  | .abort =>
+                    -- what the file defined before the abort stays defined; the chunks it had
+                    -- produced are dropped from the image (the include returns b"")
+                    unsupported "statement aborting inside an included file"
+                  | e => throw e
                 pure (fs, false)
         else if base == "insert_file" then do
           let p := (ops.head?.bind constString).map (fun p => resolvePath (strOfCps p) file)
@@ -478,12 +479,6 @@ end
 
 /-! ### evaluation -/
 
-/-- a value affine in the (possibly unknown) link base: `coef · LA + const` -/
-structure Lin where
-  coef : Int
-  const : Int
-deriving Repr, DecidableEq, Inhabited
-
 inductive EFail
   | abort | crash (what : String) | needBase | cycle
 deriving Repr, DecidableEq
@@ -510,12 +505,11 @@ structure G where
   base : Option Int
 
 def force (g : G) (l : Lin) : Ev Int :=
-  if l.coef == 0 then pure l.const
-  else match g.base with
-    | some b => pure (l.coef * b + l.const)
-    | none => evFail .needBase
+  match Lin.force g.base l with
+  | some v => pure v
+  | none => evFail .needBase
 
-def linConst (v : Int) : Lin := ⟨0, v⟩
+def linConst (v : Int) : Lin := Lin.ofInt v
 
 /-- `get_as_int` lifted: reports at the operand -/
 def getInt (file : String) (sp : Span) (bitness : Option Nat) (unsigned : Bool) (v : Int) : Ev Nat :=
@@ -685,11 +679,11 @@ mutual
       let a ← evalExpr g fuel visiting ctx l
       let b ← evalExpr g fuel visiting ctx r
       -- operators that keep affine values affine (`awaited=False` and polynomial arithmetic)
-      if f == "add" then pure ⟨a.coef + b.coef, a.const + b.const⟩
-      else if f == "sub" then pure ⟨a.coef - b.coef, a.const - b.const⟩
-      else if f == "mul" && b.coef == 0 then pure ⟨a.coef * b.const, a.const * b.const⟩
-      else if f == "mul" && a.coef == 0 then pure ⟨b.coef * a.const, b.const * a.const⟩
-      else if f == "lshift" && b.coef == 0 && b.const ≥ 0 then pure ⟨a.coef * 2 ^ b.const.toNat, a.const * 2 ^ b.const.toNat⟩
+      if f == "add" then pure (Lin.add a b)
+      else if f == "sub" then pure (Lin.sub a b)
+      else if f == "mul" && b.coef == 0 then pure (Lin.scale a b.const)
+      else if f == "mul" && a.coef == 0 then pure (Lin.scale b a.const)
+      else if f == "lshift" && b.coef == 0 && b.const ≥ 0 then pure (Lin.scale a (2 ^ b.const.toNat))
       else if f == "rshift" && b.coef == 0 && b.const == 0 then pure a
       else do
         let x ← force g a
@@ -701,7 +695,7 @@ mutual
     | .pre sp f e => do
       let a ← evalExpr g fuel visiting ctx e
       if f == "pos" then pure a
-      else if f == "neg" then pure ⟨-a.coef, -a.const⟩
+      else if f == "neg" then pure (Lin.neg a)
       else do
         let x ← force g a
         match Ops.unop f x with
@@ -835,12 +829,13 @@ mutual
         let old ← force g addr
         let v ← evalInt g fuel visiting sctx value
         let nv ← getInt ctx.file sp (some 16) false v
-        if (nv : Int) < old then do
-          evDiag "error" "value-out-of-bounds" ctx.file sp.s sp.e
+        match Link.skipBytes old nv with
+        | .error er => do
+          evDiag "error" er ctx.file sp.s sp.e
           evFail .abort
-        let n := ((nv : Int) - old).toNat
-        out := out ++ zeros n
-        addr := ⟨addr.coef, addr.const + n⟩
+        | .ok zs =>
+          out := out ++ zs
+          addr := ⟨addr.coef, addr.const + zs.length⟩
       | .words sp ws =>
         let c : Chunk := ⟨.words ws, sctx, sp, sp⟩
         let b ← kindBytes g fuel visiting c addr
@@ -901,10 +896,11 @@ mutual
       let old ← force g emit
       let v ← evalInt g fuel visiting c.ctx e
       let nv ← getInt file c.sp (some 16) false v
-      if (nv : Int) < old then do
-        evDiag "error" "value-out-of-bounds" file c.sp.s c.sp.e
+      match Link.skipBytes old nv with
+      | .error er => do
+        evDiag "error" er file c.sp.s c.sp.e
         evFail .abort
-      pure (zeros ((nv : Int) - old).toNat)
+      | .ok zs => pure zs
     | .data m ops => do
       if m.name == ".rad50" then
         match ops with
@@ -997,11 +993,11 @@ def assemble (world : World) (cs : Charset) (mains : List String) : Result :=
     let elabAll : Elab Unit := do
       for (f, pr) in parsed do
         elabFile world cs f (pr.body.getD []) false
-    match elabAll.run {} with
-    | .error .abort => fail "failed" pdiags "aborted during compilation (diagnostics of the aborting statement not collected)"
-    | .error .fatal => fail "failed" pdiags "critical report in an included file"
-    | .error (.crash w) => fail "crash" pdiags w
-    | .ok (_, es) =>
+    match (elabAll.run).run {} with
+    | (.error .abort, es) => fail "failed" (pdiags ++ es.diags.toList) "aborted during compilation"
+    | (.error .fatal, es) => fail "failed" (pdiags ++ es.diags.toList) "critical report in an included file"
+    | (.error (.crash w), es) => fail "crash" (pdiags ++ es.diags.toList) w
+    | (.ok _, es) =>
       let ediags := pdiags ++ es.diags.toList
       match es.unsupported with
       | some w => fail "unsupported" ediags w
@@ -1010,18 +1006,18 @@ def assemble (world : World) (cs : Charset) (mains : List String) : Result :=
         -- the link base
         let (base, ldiags, lfail) : Int × List FDiag × Option EFail :=
           match es.link with
-          | none => (0o1000, [], none)
+          | none => ((Link.decideBase none).1, [], none)
           | some (e, ctx, sp) =>
             let g0 : G := ⟨es, world, cs, none⟩
+            let mk (ev : Link.LinkEval) (st : EvSt) : Int × List FDiag × Option EFail :=
+              match Link.decideBase (some ev) with
+              | (b, none) => (b, st.errs.toList, none)
+              | (b, some "recursive-definition") => (b, st.errs.toList ++ [⟨"error", "recursive-definition", ctx.file, sp.s, sp.e⟩], none)
+              | (b, some er) => (b, st.errs.toList ++ [⟨"error", er, ctx.file, e.span.s, e.span.e⟩], some .abort)
             match (evalExpr g0 fuel [] ctx e).run {} with
-            | .ok (l, st) =>
-              if l.coef == 0 then
-                match Insn.getAsInt (some 16) false l.const with
-                | .ok v => (v, st.errs.toList, none)
-                | .error er => (0, st.errs.toList ++ [⟨"error", er, ctx.file, e.span.s, e.span.e⟩], some .abort)
-              else (0, st.errs.toList ++ [⟨"error", "recursive-definition", ctx.file, sp.s, sp.e⟩], none)
-            | .error (.needBase, st) => (0, st.errs.toList ++ [⟨"error", "recursive-definition", ctx.file, sp.s, sp.e⟩], none)
-            | .error (.cycle, st) => (0, st.errs.toList ++ [⟨"error", "recursive-definition", ctx.file, sp.s, sp.e⟩], none)
+            | .ok (l, st) => mk (.value l) st
+            | .error (.needBase, st) => mk .needsBase st
+            | .error (.cycle, st) => mk .needsBase st
             | .error (f, st) => (0, st.errs.toList, some f)
         match lfail with
         | some .abort => fail "failed" (ediags ++ ldiags) "link base out of range"
